@@ -133,6 +133,8 @@ def dense_targets():
                  (r'^(flatten|targets)\|nano::dataset_t\|#2', 'nv_ds_dense({self}, {0}, {&1})'),
                  (r'^samples\|nano::targets_iterator_t', '{self}->m_samples'), (r'^scaling\|nano::targets_iterator_t', '{self}->m_scaling'),
                  (r'^batch\|nano::targets_iterator_t', '{self}->m_batch'),
+                 (r'^begin\|nano::tensor_range_t', '{self}->m_begin'), (r'^end\|nano::tensor_range_t', '{self}->m_end'),
+                 (r'^size\|nano::tensor_range_t', '({self}->m_end - {self}->m_begin)'),
                  (r'^slice\|(nano::indices_t|nano::tensor_t<nano::tensor_vector_storage_t, long, 1>)\|#1', 'nv_slice_of({self}, {0})'),
                  (r'^slice\|' + DENSE + r'.*\|#1', 'nv_cache_slice({self}, {0}, self->m_samples.id)'),
                  (r'^size\|nano::tensor_base_t<double, [24]', '@nondet'), (r'^size\|nano::tensor_base_t<long, 1', '__CPROVER_uninterpreted_idxsize({self}->id)'),
@@ -202,8 +204,10 @@ def targets():
 
 
 DECIDED = [
-    'FUNCTIONAL HALF (what a chunk task does, not only where it writes) -- select_iterator_t: the chunk task of loop(samples, features, op) [sclass / mclass / scalar / struct] invokes the operator exactly end - begin times; invocation k is for the feature AT POSITION begin + k of `features` (ghost k), with this task\'s tnum and the values dataset().select(samples, that feature, m_buffers[tnum].m_<kind of the operator>); loop(samples, features, op) maps [0, features.size()) once, in chunks of features_per_thread(..) >= 1; loop(samples, op) passes the caller\'s samples and the feature list of the operator\'s own kind; loop(samples, ifeature, op) invokes the operator once with that feature, tnum 0 and select(samples, ifeature, m_buffers[0].m_<kind>).  With C17 (chunks tile [0, elements) for every pool size) the multiset of (feature, values) the operator sees is the same for every pool size',
+    'FUNCTIONAL HALF of schedule independence (what a chunk task does, not only where it writes) -- select_iterator_t: the chunk task of loop(samples, features, op) [sclass / mclass / scalar / struct] invokes the operator exactly end - begin times; invocation k is for the feature AT POSITION begin + k of `features` (ghost k), with this task\'s tnum and the values dataset().select(samples, that feature, m_buffers[tnum].m_<kind of the operator>); loop(samples, features, op) maps [0, features.size()) once, in chunks of features_per_thread(..) >= 1; loop(samples, op) passes the caller\'s samples and the feature list of the operator\'s own kind; loop(samples, ifeature, op) invokes the operator once with that feature, tnum 0 and select(samples, ifeature, m_buffers[0].m_<kind>).  With C17 (chunks tile [0, elements) for every pool size) the multiset of (feature, values) the operator sees is the same for every pool size',
+    'FUNCTIONAL HALF -- flatten_iterator_t / targets_iterator_t: the chunk tasks of the three loop(op) invoke the operator exactly once with the range [begin, end), this task\'s tnum and the (scaled) inputs / targets of exactly positions [begin, end) of the iterator\'s samples, from the cache or from per-thread buffer tnum; flatten(tnum, range) / targets(tnum, range) return those values in both branches (cached: rows [begin, end) of the cache; uncached: dataset values of samples.slice(range), scaled); loop(op) maps [0, samples().size()) once in chunks of batch(); the chunk tasks of cache_flatten / cache_targets store into rows [begin, end) of the cache the scaled values of positions [begin, end), computed in buffer tnum',
+    'FUNCTIONAL HALF -- weak-learner fitting through select_iterator_t::loop: the fit operators of affine / stump / hinge keep in caches[tnum] the best-so-far record: after the operator ran for a feature, (m_score, m_feature) is unchanged or a strictly smaller, finite score attributed to THIS feature (loop invariant over the thresholds for stump / hinge); so every per-worker cache holds the minimum over the features that worker saw, and min_reduce (C09) over the caches is the minimum over all features however they were chunked (ties between equal scores: not decided)',
 ]
 ASSUMPTIONS = [
-    'functional targets: an index list is a ghost identity with uninterpreted elements NV_IDX(id, k) and size; dataset_t::select(samples, feature, buffer) is identified by (samples, feature, buffer); nano::idiv(n, d) >= 0 for n >= 0, d >= 1; concurrency() >= 1 (C17); std::max is max',
+    'functional targets: an index list is a ghost identity with uninterpreted elements NV_IDX(id, k) and size; dataset_t::select(samples, feature, buffer) / flatten / targets(samples, buffer) are identified by (samples, feature, buffer); scalar_stats_t::scale(scaling, view) scales what the view denotes (C14); the cached tensor holds in row r the scaled values of position r of m_samples (class invariant, established by the cache tasks proved here); nano::idiv(n, d) >= 0 for n >= 0, d >= 1; concurrency() >= 1 (C17); std::max is max; the accumulator part of a wlearner cache (clear / update / score) does not write the best-so-far record (m_score, m_feature, ..); m_score is not NaN at entry (initialised to no_fit_score(), only finite scores are stored: the proved step preserves it)',
 ]
